@@ -8,8 +8,10 @@ import (
 	"math"
 	"testing"
 
+	"github.com/reactivego/ivg"
 	"github.com/reactivego/ivg/decode"
 	"github.com/reactivego/ivg/encode"
+	"github.com/reactivego/ivg/generate"
 	"github.com/reactivego/ivg/render"
 	"pgregory.net/rapid"
 
@@ -31,6 +33,42 @@ type Case struct {
 	// Copied: the Renderer that receives the calls is a copy (plain assignment) of the one that
 	// SetRasterizer was called on.
 	Copied bool `json:"copied,omitempty"`
+	// Bystander: a second, unrelated Renderer (own rasteriser) opens a gradient-filled path of
+	// its own right after each StartPath of the one under test and ends it right after, so two
+	// Renderers have paths open at the same time (one goroutine, calls interleaved).
+	Bystander bool `json:"bystander,omitempty"`
+}
+
+type bystander struct {
+	z    render.Renderer
+	r    rast.Recorder
+	g    generate.Generator
+	open bool
+}
+
+func (b *bystander) init() {
+	b.z.SetRasterizer(&b.r, image.Rect(3, 4, 40, 50))
+	b.g.SetDestination(&b.z)
+	b.g.Reset(ivg.ViewBox{MinX: 0, MinY: 0, MaxX: 10, MaxY: 10}, ivg.DefaultPalette)
+}
+
+func (b *bystander) start() {
+	stops := []generate.GradientStop{{Offset: 0.125, Color: color.RGBA{0x12, 0x34, 0x56, 0xff}}, {Offset: 0.375, Color: color.RGBA{0x65, 0x43, 0x21, 0xff}},
+		{Offset: 0.625, Color: color.RGBA{0x01, 0x02, 0x03, 0x04}}, {Offset: 0.875, Color: color.RGBA{0xf0, 0xe0, 0xd0, 0xff}}}
+	b.g.SetCSel(0)
+	b.g.SetNSel(0)
+	b.g.SetLinearGradient(1, 2, 7, 9, generate.GradientSpreadReflect, stops)
+	b.g.StartPath(0, 1, 1)
+	b.g.AbsLineTo(5, 1)
+	b.g.AbsLineTo(5, 5)
+	b.open = true
+}
+
+func (b *bystander) end() {
+	if b.open {
+		b.g.ClosePathEndPath()
+		b.open = false
+	}
 }
 
 type pathObs struct {
@@ -55,7 +93,20 @@ func run(c Case) (delivered []ops.Op, paths []pathObs, stray []rast.Call, err er
 	hook := &ops.Recorder{Inner: zp}
 	inPath := false
 	last := 0
+	var by *bystander
+	if c.Bystander {
+		by = &bystander{}
+		by.init()
+	}
 	hook.After = func(o ops.Op) {
+		if by != nil {
+			switch o.K {
+			case ops.StartPath:
+				by.start()
+			case ops.ClosePathEndPath:
+				defer by.end() // the Renderer under test has drawn by now
+			}
+		}
 		n := len(rr.Calls)
 		switch {
 		case o.K == ops.StartPath:
@@ -289,6 +340,10 @@ func genCase(t *rapid.T) (Case, map[string]bool) {
 	if rapid.IntRange(0, 3).Draw(t, "copied") == 0 {
 		c.Copied = true
 		gs.l("renderer-copied-after-SetRasterizer")
+	}
+	if rapid.IntRange(0, 4).Draw(t, "bystander") == 0 {
+		c.Bystander = true
+		gs.l("another-renderer-has-a-gradient-path-open-meanwhile")
 	}
 	c.ViaBytes = rapid.IntRange(0, 2).Draw(t, "via") == 0
 	if c.ViaBytes {
